@@ -1,4 +1,5 @@
 import Oas3Model.Proofs.Defaults
+import Oas3Model.Sem.DefaultsDoc
 /-!
 # C17 — schema defaults are honoured wherever a value is filled in
 
@@ -244,5 +245,148 @@ example : let m := mk (.scalar .number none) false true false (some (.sc (.str "
 example : let m := mk (.enumStr ["x".toList, "y".toList]) false false false (some (.sc (.str "x".toList))) none none false
     WF m = true ∧ J m (observe m (convert m)) = true := by
   decide +kernel
+
+/-! ## documents: several sites, a usage and a generation target (`dflt.doc`) -/
+
+/-- **site independence.**  What the model expects for site `i` of a document is `convertSite` of THAT site's
+own schema under the target and the usage of its generated type — no other site's schema enters. -/
+theorem site_independent {κ : Type} [BEq κ] (t : Target) (sites : List (DocSite κ)) (i : Nat) :
+    (convertDoc t sites)[i]? = (sites[i]?).map (fun d => convertSite t (effUsage sites d) d.site) := by
+  simp [convertDoc]
+
+/-- … and the member attributes (field type, `#[default(..)]`, `#[builder(..)]`) and the container
+`#[serde(default)]` of a site do not even depend on target and usage: they are a function of the site's schema. -/
+theorem site_members_schema_only (t t' : Target) (u u' : Usage) (s : Site) :
+    (convertSite t u s).members = (convertSite t' u' s).members ∧
+    (convertSite t u s).serdeDefault = (convertSite t' u' s).serdeDefault := ⟨rfl, rfl⟩
+
+/-- only the derived serde traits depend on target and usage, and for a schema struct they are: both traits
+unless the type is used in one direction only; `Deserialize` is derived exactly when the generated side RECEIVES
+the type (client: responses, server: requests). -/
+theorem schema_derives_deserialize_iff (t : Target) (u : Usage) :
+    (serdeMode t .schema u).de = true ↔
+      (match t with
+       | .client => u.inResp = true ∨ u.inReq = false
+       | .server => u.inReq = true ∨ u.inResp = false) := by
+  cases t <;> cases u with | mk a b => cases a <;> cases b <;> simp [serdeMode]
+
+/-- **decode needs the container attribute.**  Under the serde semantics model, for a member whose
+`Default::default()` value is a non-null `x`, decoding a document that omits the member gives `x` if and only
+if the struct carries `#[serde(default)]`. -/
+theorem decode_needs_default_iff (nat : JVal) (f : Facts) (x : JVal) (hx : x ≠ .sc .null)
+    (hd : defaultVal nat f = some x) :
+    decodeOmitted nat f = some x ↔ f.structSerdeDefault = true := by
+  unfold decodeOmitted
+  cases hs : f.structSerdeDefault
+  · cases hn : f.ty.nullable
+    · simp
+    · simp only [Bool.false_eq_true, if_false, if_true, iff_false]
+      intro h
+      exact hx (by injection h with h; exact h.symm)
+  · simp [hd]
+
+/-- every schema site with a defaulted member gets the container attribute, whatever the target and the usage:
+so wherever `Deserialize` is derived, decode-omitted equals `Default` for all of its members. -/
+theorem schema_site_decodes_default (t : Target) (u : Usage) (s : Site) (hk : s.kind = .schema)
+    (hm : ∃ nm ∈ s.members, nm.2.default?.isSome = true) (nat : JVal) (n : List Char) (f : Facts)
+    (hf : (n, f) ∈ (convertSite t u s).members) :
+    decodeOmitted nat f = defaultVal nat f := by
+  obtain ⟨nm, hmem, hd⟩ := hm
+  have hsd : siteSerdeDefault s = true := by
+    unfold siteSerdeDefault
+    rw [hk]
+    exact List.any_eq_true.mpr ⟨nm, hmem, hd⟩
+  simp only [convertSite, List.mem_map] at hf
+  obtain ⟨a, _, ha⟩ := hf
+  have : f.structSerdeDefault = true := by
+    have := congrArg Prod.snd ha
+    simp at this
+    rw [← this]
+    exact hsd
+  simp [decodeOmitted, this]
+
+/-- the usage-relative property is implied by the full one: where every trait is derived `JU` is `J`, and
+deriving fewer traits only removes obligations. -/
+theorem JU_of_J (m : Member) (nat : JVal) (b : Bool) (sd : Serde) (f : Facts)
+    (h : J m (observeN nat b f) = true) : JU m sd (observeU nat b sd f) = true := by
+  unfold J at h
+  unfold JU
+  cases hx : expected m with
+  | none => rfl
+  | some x =>
+    simp only [hx, observeN, Bool.and_eq_true, beq_iff_eq] at h
+    obtain ⟨⟨⟨h1, h2⟩, h3⟩, h4⟩ := h
+    simp only [observeU, Bool.and_eq_true, Bool.or_eq_true, beq_iff_eq, Bool.not_eq_true']
+    refine ⟨⟨⟨Or.inr h1, h2⟩, h3⟩, ?_⟩
+    cases hde : sd.de
+    · -- encodes `T::default()`, which equals the decoded value under `J`
+      rw [h1] at h4
+      rw [h2]
+      simp only [Bool.false_eq_true, if_false]
+      rcases (by simpa using h4 : x = .sc .null ∨ encodeOf f (some x) = some x) with h | h
+      · exact Or.inl (Or.inl h)
+      · exact Or.inr h
+    · simp only [if_true]
+      rcases (by simpa using h4 : x = .sc .null ∨ encodeOf f (decodeOmitted nat f) = some x) with h | h
+      · exact Or.inl (Or.inl h)
+      · exact Or.inr h
+
+def msite (kind : SiteKind) (ms : List (String × Member)) : Site :=
+  { kind, members := ms.map fun nm => (nm.1.toList, nm.2) }
+
+def intDefault (d : Int) : Member := mk (.scalar .integer none) false false false (some (.sc (.int d))) none none false
+
+/-- two same-shaped inline objects `{max: integer default 1}` / `{max: integer default 2}` -/
+def siteOne : Site := msite .schema [("max", intDefault 1)]
+def siteTwo : Site := msite .schema [("max", intDefault 2)]
+def twoSites : List (DocSite Nat) := [⟨siteOne, Usage.both, some 1⟩, ⟨siteTwo, Usage.both, some 2⟩]
+
+/-- **sharing one struct between two sites with different defaults breaks the per-site judge**: the model's
+facts pass at both sites; the facts of site 0 used at both sites (what a cache key that ignores `default`
+produces) fail at site 1. -/
+theorem cex_shared_struct :
+    JDoc twoSites (convertDoc .client twoSites) = [true, true] ∧
+    JDoc twoSites [convertSite .client Usage.both siteOne, convertSite .client Usage.both siteOne] = [true, false] ∧
+    JDoc twoSites [convertSite .client Usage.both siteTwo, convertSite .client Usage.both siteTwo] = [false, true] := by
+  decide +kernel
+
+/-- a request-only schema struct in a SERVER run derives `Deserialize`; without the container attribute
+(what removing it "because request-only payloads are never decoded" produces) the judge fails, while the same
+facts in a CLIENT run (Serialize only) pass: the obligation is tied to the derived trait. -/
+theorem cex_request_only_server :
+    let f := convertSite .server Usage.req siteOne
+    let g : SiteFacts := { f with members := f.members.map fun nf => (nf.1, { nf.2 with structSerdeDefault := false }) }
+    f.serde = ⟨false, true⟩ ∧ JSite siteOne f.serde f.members = true ∧ JSite siteOne f.serde g.members = false ∧
+    JSite siteOne (serdeMode .client .schema Usage.req) g.members = true := by
+  decide +kernel
+
+/-- `KnownQueryParamDefaultNotDecoded` on a concrete input: `?mem` (integer, default 5) in a server run -/
+def querySite : Site := msite .query [("mem", intDefault 5)]
+theorem cex_query_param_default_not_decoded :
+    let f := convertSite .server Usage.both querySite
+    f.serde = ⟨false, true⟩ ∧ f.serdeDefault = false ∧ JSite querySite f.serde f.members = false ∧
+    KnownQueryParamDefaultNotDecoded .server querySite (intDefault 5) = true ∧
+    -- the client side of the same parameter (Serialize only) satisfies the property
+    JSite querySite (serdeMode .client .query Usage.both) (convertSite .client Usage.both querySite).members = true := by
+  decide +kernel
+
+/-- the class is exact for parameter structs: a server-side query parameter struct never carries the container
+attribute, so a member whose `Default` value is a non-null `x` never decodes to it. -/
+theorem query_param_never_decodes (u : Usage) (s : Site) (hk : s.kind = .query) (nat : JVal) (n : List Char) (f : Facts) (x : JVal)
+    (hf : (n, f) ∈ (convertSite .server u s).members) (hx : x ≠ .sc .null) (hd : defaultVal nat f = some x) :
+    (serdeMode .server s.kind u).de = true ∧ decodeOmitted nat f ≠ some x := by
+  constructor
+  · rw [hk]; rfl
+  · have hsd : siteSerdeDefault s = false := by unfold siteSerdeDefault; rw [hk]
+    simp only [convertSite, List.mem_map] at hf
+    obtain ⟨a, _, ha⟩ := hf
+    have : f.structSerdeDefault = false := by
+      have := congrArg Prod.snd ha
+      simp at this
+      rw [← this]
+      exact hsd
+    intro h
+    have := (decode_needs_default_iff nat f x hx hd).mp h
+    simp_all
 
 end Oas3.Props.C17
